@@ -185,17 +185,17 @@ func trainReplay0(b *trainBeh) (string, bool) {
 
 // trajectory runs K real training steps of the model of case cs (one or several FC layers with activations and a
 // loss) and checks every step against the symbolic one-step map. Returns (violation, known finding witnessed, steps).
-func trajectory(cs *sym.Case, rng *rand.Rand, K int, lr float64) (d string, known bool, steps int) {
+func trajectory(cs *sym.Case, rng *rand.Rand, K int, lr float64, profile int) (d string, known bool, steps int) {
 	d = run.Guard(func() string {
 		var dd string
-		dd, known, steps = trajectory0(cs, rng, K, lr)
+		dd, known, steps = trajectory0(cs, rng, K, lr, profile)
 		return dd
 	})
 	return d, known, steps
 }
 
-func trajectory0(cs *sym.Case, rng *rand.Rand, K int, lr float64) (string, bool, int) {
-	env := sym.Assign(cs, rng, 0)
+func trajectory0(cs *sym.Case, rng *rand.Rand, K int, lr float64, profile int) (string, bool, int) {
+	env := sym.Assign(cs, rng, profile) // the profile selects among the value domains a model lists for its inputs
 	// one persistent layer object per fc instruction; its parameters live behind the Weights() pointers
 	type param struct {
 		node int // input node id (1-based)
@@ -545,6 +545,30 @@ func validateProtocols(c *run.Ctx, n, steps int) error {
 }
 
 func init() {
+	replayers["C11"] = func(path string, w json.RawMessage) int {
+		var rec struct {
+			Case    *sym.Case `json:"trajectory"`
+			Seed    int64     `json:"seed"`
+			LR      float64   `json:"lr"`
+			K       int       `json:"K"`
+			Profile int       `json:"profile"`
+		}
+		if err := json.Unmarshal(w, &rec); err != nil || rec.Case == nil || rec.K == 0 {
+			fmt.Fprintln(os.Stderr, "no replayer for this witness kind")
+			return 2
+		}
+		d, _, _ := trajectory(rec.Case, rand.New(rand.NewSource(rec.Seed)), rec.K, rec.LR, rec.Profile)
+		if strings.HasPrefix(d, "HARNESS") {
+			fmt.Fprintln(os.Stderr, d)
+			return 2
+		}
+		if d != "" {
+			fmt.Printf("VIOLATION property=C11 replay=%s\n  training %s (lr %v): %s\n", path, rec.Case.Name, rec.LR, d)
+			return 1
+		}
+		fmt.Printf("C11: witness %s no longer fails\n", path)
+		return 0
+	}
 	register("C11", "model_checking", func(c *run.Ctx) error {
 		c.Rule = "(0) Train refines the value-free protocol machine TrainProto (TLC property RefinesProto), and random protocols of 25 (40) steps recorded from real 1-3 layer models with any activation are validated by TLC against TrainProto (Trace_Train.tla); (1) TLC explores spec/Train.tla exhaustively: forward / back-propagate / Update(p) / Reset(p) / end-of-step with every way of omitting updates and resets, for batch, features in 1..2, Relu and LeakyRelu + MSE, 3 (4) steps, exact rational weights, with Descent, GradIsCurrent, StaleIsAnError, NoLeak, ShapesKept checked; every transition is replayed on a real FC layer / activation / MSE / SGD comparing weights, context states, gradients and ok/error of the last call; (2) TLC emits the symbolic one-step map (dLoss/dW, dLoss/dB as terms) of every model FC -> {Relu, LeakyRelu, Sigmoid, Tanh, Softmax} -> {MSE, BCE, CE} that type-checks for the size grid; the harness runs K real steps from seeded initialisations and checks w_{k+1} = w_k - lr*g(w_k) after every step with several learning rates (incl. 0 and negative); distinct = distinct protocol paths + distinct (model, sizes, learning rate, initialisation)"
 		c.Assumptions = []string{"known finding D2: with batch > 1 the parameter gradients pass an expansion; the as-is trajectory (valA / asis terms) is produced by the specification and matched exactly", "rational trajectories only for the piece-wise rational family; the other models are covered by the symbolic one-step maps"}
@@ -629,13 +653,13 @@ func init() {
 			for _, lr := range []float64{0.01, 0.5, 0, -0.25} {
 				for i := 0; i < inits; i++ {
 					seed := c.Seed*7919 + int64(idx)*131 + int64(i)
-					d, known, n := trajectory(&cs, rand.New(rand.NewSource(seed)), K, lr)
+					d, known, n := trajectory(&cs, rand.New(rand.NewSource(seed)), K, lr, i)
 					if strings.HasPrefix(d, "HARNESS") {
 						return run.Brokenf("%s", d)
 					}
 					if d != "" {
-						if d2, _, _ := trajectory(&cs, rand.New(rand.NewSource(seed)), K, lr); d2 != "" {
-							c.Violate(fmt.Sprintf("training %s (lr %v): %s", cs.Name, lr, d), map[string]any{"trajectory": cs, "seed": seed, "lr": lr, "K": K, "detail": d})
+						if d2, _, _ := trajectory(&cs, rand.New(rand.NewSource(seed)), K, lr, i); d2 != "" {
+							c.Violate(fmt.Sprintf("training %s (lr %v): %s", cs.Name, lr, d), map[string]any{"trajectory": cs, "seed": seed, "lr": lr, "K": K, "profile": i, "detail": d})
 							return nil
 						}
 					}
